@@ -9,7 +9,7 @@ from vt.mon import contracts
 PROP = 'C02'
 TITLE = 'bounded language enumeration'
 SHARDS = {'quick': 16, 'thorough': 32}
-TIMEOUT = {'quick': 900, 'thorough': 3600}
+TIMEOUT = {'quick': 420, 'thorough': 3600}
 REQUIRED = ['dfa_words_up_to_n', 'nfa_words_up_to_n', 'pda_words_up_to_n', 'tm_words_up_to_n', 'cfg_words_up_to_n', 'regexp_words_up_to_n', 'generate_language']
 EXHAUSTIVE_NOTE = ('all total DFAs <=3 states/<=2 symbols, all NFAs <=2 states/<=2 symbols+eps, all regexp trees <=5 nodes, all grammars with {S,A},{a,b}, <=2 rules: each '
                    'with every bound n in 0..4; PDAs, TMs and larger objects are sampled')
